@@ -29,7 +29,7 @@ type c08Resp struct {
 }
 
 type c08Step struct {
-	Kind string `json:"kind"` // open, wu, wuconn, settings_win, settings_frame, rst, ping
+	Kind string `json:"kind"` // open, wu, wuconn, settings_win, settings_frame, rst, ping, shutdown
 	K    int    `json:"k"`    // stream plan index
 	V    uint32 `json:"v"`
 }
@@ -60,6 +60,9 @@ func c08Gen(t *rapid.T) c08Case {
 	n := len(c.Resps)
 	step := rapid.Custom(func(t *rapid.T) c08Step {
 		kind := rapid.SampledFrom([]string{"open", "open", "wu", "wu", "wu", "wuconn", "wuconn", "settings_win", "settings_frame", "rst", "ping"}).Draw(t, "kind")
+		if rapid.IntRange(0, 39).Draw(t, "shutdown") == 17 { // (not 0: rapid favours the ends of a range)
+			kind = "shutdown"
+		}
 		s := c08Step{Kind: kind, K: rapid.IntRange(0, n-1).Draw(t, "k")}
 		switch kind {
 		case "open":
@@ -145,6 +148,7 @@ func c08Run(c c08Case, r *vp.Rec) error {
 	byPlan := map[int]*c08Stream{}
 	nextID := uint32(1)
 	connDead := false
+	graceful := false // the server has announced a graceful shutdown: GOAWAY(NO_ERROR)
 	_ = pendingInit
 	_ = pendingFrame
 
@@ -256,7 +260,12 @@ func c08Run(c c08Case, r *vp.Rec) error {
 					sm.reset = true
 				}
 			case *GoAwayFrame:
-				connDead = true
+				if f.ErrCode == ErrCodeNo {
+					// RFC 9113 6.8: the streams opened so far are still served
+					graceful = true
+				} else {
+					connDead = true
+				}
 			}
 		}
 	}
@@ -280,8 +289,11 @@ func c08Run(c c08Case, r *vp.Rec) error {
 			break
 		}
 		switch st.Kind {
+		case "shutdown":
+			// what http.Server.Shutdown does to the connection
+			s.sc.StartGracefulShutdown()
 		case "open":
-			if byPlan[st.K] != nil {
+			if byPlan[st.K] != nil || graceful {
 				continue
 			}
 			id := nextID
@@ -429,7 +441,13 @@ func c08Run(c c08Case, r *vp.Rec) error {
 		r.Class("conn-ended-early")
 	}
 	r.Classf("sched-%d", c.Sched)
-	if len(unacked) != 0 && !connDead {
+	if graceful {
+		r.Class("graceful-shutdown")
+		if nblocked > 0 {
+			r.Class("graceful-shutdown-with-a-blocked-stream")
+		}
+	}
+	if len(unacked) != 0 && !connDead && !graceful {
 		return fmt.Errorf("harness: %d SETTINGS frames not acknowledged after quiescence", len(unacked))
 	}
 	return nil
